@@ -1000,7 +1000,7 @@ class ComputeGraph(MultiDiGraph):
     def _resolve_derivatives(self, expr):
         """Replace ``Derivative(f(x), x)`` with known analytical forms.
 
-        Currently handles: ``identity`` (pass-through), ``sigmoid``, and ``absv``.
+        Currently handles: ``identity`` (pass-through), ``sigmoid``, ``absv``, ``arctan``, ``arcsin``, ``arccos``.
         """
         import sympy as sp
         from sympy import Derivative, Function, Subs
@@ -1015,8 +1015,22 @@ class ComputeGraph(MultiDiGraph):
             lambda e: (lambda s: s * (1 - s))(Function('sigmoid')(e.expr.args[0]))
         )
         expr = expr.replace(
-            lambda e: isinstance(e, Derivative) and e.expr.func.__name__ == 'absv',
+            # (`absv` reaches this point under the backend's call name `abs`)
+            lambda e: isinstance(e, Derivative) and e.expr.func.__name__ in ('absv', 'abs'),
             lambda e: Function('sign')(e.expr.args[0])
+        )
+        # inverse trigonometric functions carry their numpy names (arctan, ...), which sympy does not know
+        expr = expr.replace(
+            lambda e: isinstance(e, Derivative) and e.expr.func.__name__ == 'arctan',
+            lambda e: 1 / (1 + e.expr.args[0] ** 2)
+        )
+        expr = expr.replace(
+            lambda e: isinstance(e, Derivative) and e.expr.func.__name__ == 'arcsin',
+            lambda e: 1 / sp.sqrt(1 - e.expr.args[0] ** 2)
+        )
+        expr = expr.replace(
+            lambda e: isinstance(e, Derivative) and e.expr.func.__name__ == 'arccos',
+            lambda e: -1 / sp.sqrt(1 - e.expr.args[0] ** 2)
         )
         # Sympy wraps chain-rule applications of identity/sigmoid/absv in
         # Subs(Derivative(f(_xi), _xi), _xi, real_arg) because these functions
